@@ -151,7 +151,17 @@ bool StepScript(InterpreterEnv& env)
         env.opcode_pos_history.push_back(env.opcode_pos);
 
         if (!StepScript(env, pc)) {
-            // undo above pushes
+            // a failed operation leaves the session where it was, at the failing operation:
+            // put back what the operation already changed (pc has advanced past it), ...
+            env.stack = env.stack_history.back();
+            env.altstack = env.altstack_history.back();
+            env.pc = env.pc_history.back();
+            env.nOpCount = env.nOpCount_history.back();
+            env.vfExec = env.vfExec_history.back();
+            env.pbegincodehash = env.pbegincodehash_history.back();
+            env.execdata = env.execdata_history.back();
+            env.opcode_pos = env.opcode_pos_history.back();
+            // ... and undo above pushes
             env.stack_history.pop_back();
             env.altstack_history.pop_back();
             env.pc_history.pop_back();
